@@ -252,7 +252,8 @@ Definition worker_inv (latch : option nat) (rcts : slots) (i : nat) (p : wphase)
   match p with
   | WRun k => k <= RetryCount /\ (forall j, j < k -> s i j = ORetry) /\ nth_error rcts i = Some None
   | WReport => tx_fails (s i) /\ nth_error rcts i = Some None
-  | _ => slot_good rcts i \/ (tx_fails (s i) /\ latch <> None)
+  | WCommit | WRelease | WFinished => slot_good rcts i \/ (tx_fails (s i) /\ latch <> None)
+  | WCommitF | WLateReport => False   (* never entered by the current code *)
   end.
 
 Definition disp_inv (d : dphase) (ws : list wphase) : Prop :=
